@@ -93,7 +93,14 @@ def positive(ctx, names):
 
 
 def to_sym(ctx, v):
-    return v if isinstance(v, Sym) else ctx.const(v)
+    if isinstance(v, np.ndarray) and v.ndim == 0:
+        v = v.item()
+    if isinstance(v, Sym):
+        return v
+    r = ctx.const(v)
+    if r.e is None:
+        raise TypeError("not a number: %r" % (v,))
+    return r
 
 
 def diff_point(ctx, a, b, tries=40, seed=0):
